@@ -203,8 +203,13 @@ class Sharder:
         for i in range(self.n):
             with open(os.path.join(self.dir, f"out{i}.ndjson")) as f:
                 for line in f:
-                    if line.strip():
-                        yield json.loads(line)
+                    # the library itself prints debugging text to stdout in places
+                    # (PredicateWrapper::judge_from_value); result lines are JSON objects with an "i" member
+                    if line.startswith("{") and '"i":' in line:
+                        try:
+                            yield json.loads(line)
+                        except json.JSONDecodeError:
+                            continue
 
     def scenario(self, idx):
         with open(os.path.join(self.dir, f"in{idx % self.n}.ndjson")) as f:
